@@ -235,7 +235,11 @@ class Fn:
                     if pk < 0:
                         continue
                     mode = pm[pk] if pk < len(pm) else 'val'
-                    if mode in ('ref', 'ptr'):
+                    # a non-const reference may modify the variable; a pointer parameter only if the argument is `&v`
+                    # (passing the value of a pointer variable does not modify that variable)
+                    sa = self.strip(a)
+                    is_addr = bool(sa) and self.n(sa)['c'] == 'UnaryOperator' and self.n(sa).get('op') == '&'
+                    if mode == 'ref' or (mode == 'ptr' and is_addr):
                         v = self.var_of(a)
                         if v is not None and v in defs:
                             defs[v]['writes'].append(i)
